@@ -52,3 +52,6 @@ func VerifSysscStorageKeys() VerifSysscKeys {
 func VerifSysscFundTypes() (activeType uint32, unStakedType uint32) {
 	return active, unStaked
 }
+
+// VerifSysscRewardKey is the storage key of the delegation contract's reward record of an epoch.
+func VerifSysscRewardKey(epoch uint32) []byte { return rewardKeyForEpoch(epoch) }
